@@ -17,6 +17,7 @@ from ml_pipeline_engine.dag.errors import RecurrentSubgraphDoesNotHaveResultErro
 from ml_pipeline_engine.dag.errors import SwitchDoesNotHaveCaseError
 from ml_pipeline_engine.dag.graph import DiGraph
 from ml_pipeline_engine.dag.graph import get_connected_subgraph
+from ml_pipeline_engine.dag.graph import get_restricted_subgraph
 from ml_pipeline_engine.dag.storage import DAGNodeStorage
 from ml_pipeline_engine.logs import logger_manager as logger
 from ml_pipeline_engine.logs import logger_manager_lock as lock_logger
@@ -500,10 +501,6 @@ class DAGRunConcurrentManager(DAGRunManagerLike):
 
         list_node_ids = self._get_node_order(dag)
 
-        if dag.is_recurrent:
-            logger.debug('Hide previous node results for recurrent subgraph %s', list_node_ids)
-            self._node_storage.hide_last_execution(*list_node_ids)
-
         if len(list_node_ids) == 0:
             return None
 
@@ -800,6 +797,15 @@ class DAGRunConcurrentManager(DAGRunManagerLike):
         recurrent_subgraph = get_connected_subgraph(
             self.dag.graph, start_from_node_id, node_id, is_recurrent=True, is_oneof=dag.is_oneof,
         )
+
+        # Everything between the start node and the destination is invalidated by a restart
+        nodes_to_restart = list(recurrent_subgraph)
+
+        # ... but it is executed like any other DAG: the case nodes of a switch and the candidates of a OneOf are run
+        # by their switch / OneOf when they are selected, not as ordinary nodes of the subgraph.
+        recurrent_subgraph = get_restricted_subgraph(
+            self._get_reduced_dag(self.dag.input_node, node_id), recurrent_subgraph,
+        )
         logger.debug('%s Start the process of the recurrent subgraph', recurrent_subgraph)
 
         for current_iter in range(max_iterations):
@@ -808,6 +814,9 @@ class DAGRunConcurrentManager(DAGRunManagerLike):
 
             # The DAG is shared between runs, so the data for the next iteration is kept in the manager
             self._additional_data[start_from_node_id] = node_result.data
+
+            logger.debug('Hide previous node results for recurrent subgraph %s', nodes_to_restart)
+            self._node_storage.hide_last_execution(*nodes_to_restart)
 
             node_result = await self._run_dag(dag=recurrent_subgraph)
 
